@@ -27,6 +27,9 @@ fn name_chars() -> &'static [char] {
         v
     })
 }
+const COLLIDING_NAMES: [&str; 12] = [
+    "costarring", "liquid", "declinate", "macallums", "altarage", "zinke", "Aa", "BB", "plumless", "buckeroo", "AaAa", "BBBB",
+];
 const BASES: &[u8] = b"ACGTNRYKMSWBDHVacgtn";
 
 struct RecModel {
@@ -86,7 +89,10 @@ fn gen_file(w: &World, scale: Scale, max_recs: u64, max_len: u64) -> FileModel {
                 break;
             }
         }
-        let mut name = match w.draw(8) {
+        let mut name = match w.draw(9) {
+            // pairs of strings known to collide under common 32-bit hashes (FNV-1a, CRC32, Java's
+            // hashCode, DJB2): a name→record map keyed by a hash must still tell them apart
+            8 => COLLIDING_NAMES[w.draw(COLLIDING_NAMES.len() as u64) as usize].to_string(),
             // names that are prefixes / extensions of an earlier name, and numeric-looking names
             1 if i > 0 => format!("{}{}", plans[w.draw(i as u64) as usize].name, string_from(w, name_chars(), 1, 2)),
             2 => format!("{}", w.draw(30)),
@@ -486,10 +492,24 @@ fn run_history(w: &W, f: &FileModel, steps: u64, allow_faults: bool, allow_cut: 
                 Some(Region { rid: *r, s: 0, e: f.recs[*r].seq.len() as u64 }),
             )),
             FetchOp::UnknownName => {
-                let mut nm = String::from("no-such-sequence");
+                // a name that is not in the index: unrelated, or a near miss of an existing one
+                // (other letter case, a prefix, an extension, the other member of a hash collision)
+                let base = &f.recs[w.draw(nrec as u64) as usize].name;
+                let mut nm = match w.draw(6) {
+                    0 => String::from("no-such-sequence"),
+                    1 => base.chars().map(|c| if c.is_ascii_lowercase() { c.to_ascii_uppercase() } else { c.to_ascii_lowercase() }).collect(),
+                    2 => base.chars().take(base.chars().count().saturating_sub(1)).collect(),
+                    3 => format!("{}x", base),
+                    4 => COLLIDING_NAMES[w.draw(COLLIDING_NAMES.len() as u64) as usize].to_string(),
+                    _ => format!(" {}", base),
+                };
+                if nm.is_empty() {
+                    nm.push('?');
+                }
                 while f.recs.iter().any(|r| r.name == nm) {
                     nm.push('!');
                 }
+                w.probe("unknown_name_near_miss");
                 let res = if w.chance(1, 2) { reader.fetch(&nm, 0, 1) } else { reader.fetch_all(&nm) };
                 Some((res, None))
             }
